@@ -370,12 +370,30 @@ def appConv (env : Env) (c : Conv) (o : Obj) (a : Args) : Res :=
   | .self => app env .call o a
   | .absent => .err .noAsynq
 
-/-- the body of async_call (decorators.py:398-414); async_call is an @async_proxy function, so
-    `async_call.asynq(fn, ...)` is this future and `async_call(fn, ...)` its value -/
-def asyncCall (env : Env) (o : Obj) (a : Args) : Res :=
+/-- the BODY of async_call (decorators.py:406-413), once its parameters are bound; async_call is an @async_proxy
+    function, so `async_call.asynq(fn, ...)` is this future and `async_call(fn, ...)` its value -/
+def asyncCallBody (env : Env) (o : Obj) (a : Args) : Res :=
   if isPureAsyncFn o then app env .call o a
   else if hasAsynqAttr o then app env .asynq o a
   else (app env .call o a).task                               -- futures.ConstFuture(fn(*args, **kwargs))
+
+/-- name token of the keyword `fn` (harness: NAMES[6]); the other keyword names are 1..5 = a..e -/
+def nameFn : Nat := 6
+
+/-- the call passes a keyword argument called `n` -/
+def Args.hasKw (a : Args) (n : Nat) : Bool := a.kw.any (fun p => p.1 == n)
+
+/-- no keyword argument of the call is called `fn` -/
+def Args.fnFree (a : Args) : Bool := !a.hasKw nameFn
+
+/-- `async_call(o, *args, **kwargs)` / `async_call.asynq(o, *args, **kwargs)` AS THE CODE IS (decorators.py:398
+    `def async_call(fn, *args, **kwargs)`): the callable is bound to the positional-or-keyword parameter `fn`, so a
+    keyword argument that is itself called `fn` is a second value for that parameter - CPython raises TypeError
+    ("got multiple values for argument 'fn'") before the body of async_call is entered, although `o(fn=...)` and
+    `o.asynq(fn=...)` accept the keyword.  GENUINE DEFECT (`C09_async_call_kw_fn`, `C09_async_call_fn_counterexample`);
+    the repaired tree (`def async_call(fn, /, *args, **kwargs)`) is `asyncCallBody` (`modelCvF`). -/
+def asyncCall (env : Env) (o : Obj) (a : Args) : Res :=
+  if a.hasKw nameFn then .err .typeError else asyncCallBody env o a
 
 /-! ## the finite table: decorator kind x function type x access path -/
 
@@ -610,8 +628,10 @@ def cacheEntry (env : Env) (o : Obj) (a : Args) : Table :=
   | _ => []
 
 /-- one convention on the callable `b` (`tb`, `ta`: the twin callable and its arguments; `sb`, `sa`: the callable
-    and the arguments of the second call of the same attribute) -/
-def runCv (env : Env) (cv : Cv) (b : Obj) (a : Args) (tb : Obj) (ta : Args) (sb : Obj) (sa : Args) : CvRes :=
+    and the arguments of the second call of the same attribute).  `asyncCall`: what `async_call(b, ...)` does - the
+    code as it is (`Decorators.asyncCall`: `runCv`) or the repaired tree (`asyncCallBody`: `modelCvF`). -/
+def runCvWith (asyncCall : Env → Obj → Args → Res) (env : Env) (cv : Cv) (b : Obj) (a : Args) (tb : Obj) (ta : Args)
+    (sb : Obj) (sa : Args) : CvRes :=
   match cv with
   | .sync | .nestedSync => let (r, f) := valueOf (app env .call b a); ⟨[], r, f⟩
   | .asynqValue | .yieldAsynq => ⟨[], (app env .asynq b a).value, false⟩
@@ -643,6 +663,14 @@ def runCv (env : Env) (cv : Cv) (b : Obj) (a : Args) (tb : Obj) (ta : Args) (sb 
     let env' : Env := { env with cache := cacheEntry env sb sa ++ env.cache }
     ⟨[t1.value], (app env' .asynq b a).value, false⟩
 
+/-- the conventions of the code as it is -/
+def runCv : Env → Cv → Obj → Args → Obj → Args → Obj → Args → CvRes := runCvWith asyncCall
+
+/-- the conventions that go through `async_call` -/
+def Cv.viaAsyncCall : Cv → Bool
+  | .asyncCall | .asyncCallSync | .siblingCall => true
+  | _ => false
+
 /-- a whole cell of the table -/
 structure Cell where
   kind : Kind
@@ -664,14 +692,26 @@ def Cell.sibCallable (c : Cell) (rel : Rel) : Obj :=
 def CvRes.skipped : CvRes := ⟨[], .err .skipped, false⟩
 
 /-- the convention as run -/
-def modelCvRun (env : Env) (c : Cell) (cv : Cv) (a : Args) (rel : Rel) : CvRes :=
-  runCv env cv c.callable (callerArgs c.ft c.acc 0 a) c.twinCallable (callerArgs c.ft c.acc twinOff a)
+def modelCvRunWith (ac : Env → Obj → Args → Res) (env : Env) (c : Cell) (cv : Cv) (a : Args) (rel : Rel) : CvRes :=
+  runCvWith ac env cv c.callable (callerArgs c.ft c.acc 0 a) c.twinCallable (callerArgs c.ft c.acc twinOff a)
     (c.sibCallable rel) (sibCallerArgs c.ft c.acc rel a)
 
-/-- MODEL: convention `cv` on cell `c` with the caller's arguments `a` (`rel`: how the second call of the
-    conventions `sibling` / `siblingCall` / `prior` differs; they are skipped when it would not differ) -/
+def modelCvWith (ac : Env → Obj → Args → Res) (env : Env) (c : Cell) (cv : Cv) (a : Args) (rel : Rel := .args) : CvRes :=
+  if cv.isSib && identicalSib c.ft c.acc rel a then CvRes.skipped else modelCvRunWith ac env c cv a rel
+
+def modelCvRun (env : Env) (c : Cell) (cv : Cv) (a : Args) (rel : Rel) : CvRes := modelCvRunWith asyncCall env c cv a rel
+
+/-- MODEL (the code as it is): convention `cv` on cell `c` with the caller's arguments `a` (`rel`: how the second call
+    of the conventions `sibling` / `siblingCall` / `prior` differs; they are skipped when it would not differ) -/
 def modelCv (env : Env) (c : Cell) (cv : Cv) (a : Args) (rel : Rel := .args) : CvRes :=
-  if cv.isSib && identicalSib c.ft c.acc rel a then CvRes.skipped else modelCvRun env c cv a rel
+  modelCvWith asyncCall env c cv a rel
+
+/-- MODEL OF THE REPAIRED TREE (`def async_call(fn, /, *args, **kwargs)`): a keyword called `fn` is an ordinary
+    keyword.  Coincides with `modelCv` on every call without such a keyword (`modelCv_eq_F`) and on every convention
+    that does not go through async_call (`modelCv_eq_F_other`). -/
+def modelCvRunF (env : Env) (c : Cell) (cv : Cv) (a : Args) (rel : Rel) : CvRes := modelCvRunWith asyncCallBody env c cv a rel
+def modelCvF (env : Env) (c : Cell) (cv : Cv) (a : Args) (rel : Rel := .args) : CvRes :=
+  modelCvWith asyncCallBody env c cv a rel
 
 /-! ## reference semantics: how an UNDECORATED Python function of that type binds, plus the one exception -/
 
@@ -982,6 +1022,8 @@ def Case.env (c : Case) : Env :=
   { keyOf := id, tasks := [], cache := [], hashOf := c.vk.hashOf, raises := c.raises }
 
 def modelReport (c : Case) : Report := report (fun cell cv a rel => modelCv c.env cell cv a rel) modelCls modelRecv c
+/-- the report of the repaired tree -/
+def modelReportF (c : Case) : Report := report (fun cell cv a rel => modelCvF c.env cell cv a rel) modelCls modelRecv c
 def refReport (c : Case) : Report := report (fun cell cv a rel => refCv cell cv a rel) refCls refRecv c
 
 /-! ## the property as a predicate over observations (no model object involved) -/
@@ -1038,7 +1080,7 @@ def available (k : Kind) (cv : Cv) : Bool :=
   | .asynqValue | .yieldAsynq | .twin => k.hasAsynq
   | .getAsyncFn => k != .raw
   | .asyncCall | .asyncCallSync | .getAsyncOrSync | .getAsyncFnWrap => true
-  | .sibling | .siblingCall | .prior => false     -- two calls: stated separately (`availableSib`, `C09_second_call`)
+  | .sibling | .siblingCall | .prior => false     -- two calls: stated separately (`availableSib`, `C09_second_call_partial`)
 
 /-- when a convention with a second call of the same attribute can be run at all -/
 def availableSib (k : Kind) (cv : Cv) : Bool :=
@@ -1078,10 +1120,13 @@ def pyPrefix (ft : FnType) (owner : Option Nat) (cls : Nat) : List Nat :=
 
   `XCase` = a `Case` plus (a) the HISTORY of the world the observed convention runs in and (b) whether the subclass of
   the generated hierarchy OVERRIDES the decorated attribute and delegates to the inherited one through `super()`.
-  The first part is a (small) model of the two pieces of state the library could leave behind between two uses of a
-  decorated attribute - the context variable `_asyncio_mode` and entries in instance `__dict__`s that would shadow the
-  class attribute (the decorators are non-data descriptors) - with one step per event that mirrors what the code
-  does to them.  The second part is NOT a model of `super()`: it is a direct expectation on the observations (see
+  The first part names the two pieces of state the library could leave behind between two uses of a decorated
+  attribute - the context variable `_asyncio_mode` and entries in instance `__dict__`s that would shadow the class
+  attribute (the decorators are non-data descriptors) - with one step per event.  NO event writes either of them (the code
+  stores nothing in an instance, `.asyncio()` resets the mode on every exit), so the steps are the identity on every
+  reachable state and `modelReportH` is `modelReport` BY CONSTRUCTION; the caches / the in-flight table are not threaded
+  through the history (the `use` events call with THIRD argument objects, whose entries cannot matter by
+  `C09_other_keys_irrelevant_partial` - not derived).  That the CODE leaves nothing behind is the differential run's part.  The second part is NOT a model of `super()`: it is a direct expectation on the observations (see
   `ovrLog`). -/
 
 /-- events in the world of the observed convention, before it (harness: `World.event`) -/
@@ -1137,7 +1182,7 @@ def aioCallLeaky (s : HState) (fails : Bool) : HState :=
 /-- after `copy`, the copies carry the tokens of the instances; the originals live on under `origTok` -/
 def origTok (i : Nat) : Nat := i + 50
 
-/-- one event.  Attribute access (`DecoratorBase.__get__`, the pair override decorators.py:263-280), the call paths
+/-- one event (the identity on every state with `shadowed = []`; see the section header).  Attribute access (`DecoratorBase.__get__`, the pair override decorators.py:263-280), the call paths
     and the helpers store nothing in the instance and leave the context variable alone; `copy.copy` / `deepcopy`
     carry an instance's `__dict__` over to the copy; `.asyncio()` sets and resets the mode. -/
 def HState.step (raises : Bool) (s : HState) : Ev → HState
@@ -1159,7 +1204,8 @@ structure XCase where
   deriving Repr, DecidableEq, Inhabited
 
 /-- no observation at all: what the model says when the state is not clean (in asyncio mode the conventions are C15's
-    subject; a shadowed attribute is not a decorated attribute any more).  Unreachable: `C09_history_clean`. -/
+    subject; a shadowed attribute is not a decorated attribute any more).  Unreachable BY CONSTRUCTION of `HState.step`
+    (`C09_history_clean_by_construction`): no event of `Ev` writes the state. -/
 def Report.undefined : Report := ⟨[], ⟨false, false, false, .absent, .absent⟩, 0⟩
 
 /-- MODEL with history: run the events, then the case -/
